@@ -135,6 +135,71 @@ impl Phase for Programs {
     }
 }
 
+/// one gap of a short program blown up to a boundary size (blanks, newlines, one long comment, many short comments):
+/// however much of it there is, whitespace means nothing
+struct HugeGaps {
+    n: u64,
+}
+
+const GAP_SIZES: [usize; 17] = [15, 16, 17, 255, 256, 257, 1023, 1024, 1025, 4095, 4096, 4097, 65534, 65535, 65536, 70000, 140000];
+
+impl Phase for HugeGaps {
+    fn name(&self) -> String {
+        "one separator of boundary size (16 … 140,000 characters)".into()
+    }
+    fn len(&self) -> u64 {
+        self.n
+    }
+    fn run(&mut self, idx: u64, r: &mut Rng, out: &mut Out) {
+        let toks: Vec<Tok> = {
+            let ast = random_program(r, 3);
+            render_ast(&ast, Parens::Minimal, Some(r), true)
+        };
+        if toks.len() < 2 {
+            return;
+        }
+        let canon = render_spaced(&toks);
+        out.begin(|| format!("{} with one huge gap", canon));
+        let base = api::build(&canon);
+        out.eval();
+        let size = GAP_SIZES[(idx as usize) % GAP_SIZES.len()];
+        let gap: String = match r.below(5) {
+            0 => " ".repeat(size),
+            1 => "\n".repeat(size),
+            2 => format!("/*{}*/", "c".repeat(size.saturating_sub(4))),
+            3 => "/**/".repeat(size / 4 + 1),
+            _ => format!("//{}\n", "é".repeat(size / 2)),
+        };
+        // before the first token, after the last one, or between two tokens
+        let pos = r.below(toks.len() + 1);
+        let mut s = String::new();
+        for (i, t) in toks.iter().enumerate() {
+            if i == pos {
+                s.push_str(&gap);
+            } else if i > 0 {
+                s.push(' ');
+            }
+            s.push_str(&t.text());
+        }
+        if pos == toks.len() {
+            s.push_str(&gap);
+        }
+        let got = api::build(&s);
+        out.eval();
+        out.nontrivial(&format!("{}|{}|{}", canon, size, pos));
+        out.count("huge separators compared");
+        if !same_built(&base, &got) {
+            out.violation(
+                "separators/different-outcome",
+                format!("{:?} with a separator of {} characters ({:?}…) before token #{}  vs canonical  {:?}", canon, gap.chars().count(), gap.chars().take(6).collect::<String>(), pos, canon),
+                show_built(&base),
+                show_built(&got),
+            );
+        }
+        out.sample(|| format!("a separator of {} characters before token #{} of {:?} changes nothing", gap.chars().count(), pos, canon));
+    }
+}
+
 /// an unterminated `/*` outside a string is an error; comment markers inside string literals are plain text
 struct CommentRules {
     n: u64,
@@ -249,6 +314,9 @@ pub fn phases(cfg: &Cfg) -> Vec<Box<dyn Phase>> {
         }),
         Box::new(CommentRules {
             n: cfg.n(40_000, 1_000_000),
+        }),
+        Box::new(HugeGaps {
+            n: cfg.n(340, 6_800),
         }),
     ]
 }
